@@ -233,6 +233,37 @@ func asaPeerSpace() *space {
 	return sp
 }
 
+// asaPeer6Space: one lan-to-lan tunnel whose peer has an IPv4 or an IPv6
+// address; the tunnel-group named by the peer address is absent, present
+// with 'nocheck' or present with 'req' on either side.
+func asaPeer6Space() *space {
+	text := func(code int, suffix string) string {
+		peer := []string{"10.3.3.3", "2001:db8::3"}[code%2]
+		code /= 2
+		if code == 0 {
+			return ""
+		}
+		return "access-list crypto-acl" + suffix + " extended permit ip 10.1.2.0 255.255.255.0 host 10.3.4.5\n" +
+			"crypto ipsec ikev1 transform-set trans" + suffix + " esp-3des esp-sha-hmac\n" +
+			"crypto map map-outside 10 match address crypto-acl" + suffix + "\n" +
+			"crypto map map-outside 10 set peer " + peer + "\n" +
+			"crypto map map-outside 10 set ikev1 transform-set trans" + suffix + "\n" +
+			"crypto map map-outside interface outside\n" +
+			"tunnel-group " + peer + " type ipsec-l2l\ntunnel-group " + peer + " ipsec-attributes\n peer-id-validate " +
+			[]string{"", "nocheck", "req"}[code] + "\n"
+	}
+	sp := &space{name: "vpn-peer6", model: "ASA", n: 6 * 6 * 2}
+	sp.gen = func(i int64) (core.Files, core.Files) {
+		suffix := ""
+		if i%2 == 1 {
+			suffix = "-DRC-0"
+		}
+		i /= 2
+		return core.Files{Main: asaIntf + text(int(i/6), suffix)}, core.Files{Main: text(int(i%6), "")}
+	}
+	return sp
+}
+
 // asaWebvpnSpace: the toplevel webvpn block is added (or removed) in a run
 // that also edits sub-commands of a group-policy or a username, while the
 // certificate map and the tunnel-group it names exist on both sides - so
